@@ -364,6 +364,12 @@ func (p *Prog) DescsN(o thrift.Options, n int) (req, resp *thrift.TypeDescriptor
 	return rf.Type(), sf.Type(), nil
 }
 
+// SingleFile: the program is one file without includes (what the portable pipe server of C18 can parse).
+func (p *Prog) SingleFile() bool {
+	p.IDL()
+	return !p.useBase && len(p.incs) == 0
+}
+
 // Req is Descs(o).req, panicking on a parse error (harness-generated IDL must parse).
 func (p *Prog) Req(o thrift.Options) *thrift.TypeDescriptor {
 	d, _, err := p.Descs(o)
